@@ -57,10 +57,7 @@ pub fn write<S: Sim>(prop: &str, tier: Tier, seed: u64, workers: usize, res: &Ch
             "workers": workers,
             "worker_deaths": res.worker_deaths,
             "profile": super::runner::profile_name(),
-            "components": {
-                "real": ["lightmotif", "lightmotif-io (all four readers and their nom parsers)", "std::io::BufReader / read_until / read_line"],
-                "stub": ["byte source (SimSource)", "RNG (SimRng)", "allocator (SimAlloc)", "CPU probe (verif-hooks override)"]
-            },
+            "components": {"real": S::components(prop).0, "stub": S::components(prop).1},
             "known_findings_hit": rep.known_hits,
             "replay_files": rep.replay_files,
             "extra": extra,
@@ -69,22 +66,29 @@ pub fn write<S: Sim>(prop: &str, tier: Tier, seed: u64, workers: usize, res: &Ch
     });
     let name = std::env::var("LMSIM_EVIDENCE_NAME").unwrap_or_else(|_| prop.to_string());
     let mut doc = doc;
-    // fold the evidence of the shipping-profile pass (thorough tier) into this one
-    let ship = super::runner::verif_root().join("evidence").join(format!("{}.shipping.json", prop));
+    // fold the evidence of the other passes of this check (shipping profile in the thorough tier, Python tier)
     if name == prop {
-        if let Ok(t) = std::fs::read_to_string(&ship) {
-            if let Ok(v) = serde_json::from_str::<Value>(&t) {
-                let c = &v["coverage"];
-                doc["coverage"]["shipping_profile_pass"] = json!({
-                    "evaluations": c["evaluations"], "distinct_nontrivial": c["distinct_nontrivial"],
-                    "violations": v["violations"], "wall_s": v["wall_s"], "faults_fired": c["faults_fired"],
-                    "probes": c["probes"], "known_findings_hit": c["known_findings_hit"],
-                });
-                if let (Some(a), Some(b)) = (doc["violations"].as_u64(), v["violations"].as_u64()) {
-                    doc["violations"] = json!(a + b);
+        for (tag, key) in [("shipping", "shipping_profile_pass"), ("py", "python_tier_pass")] {
+            let side = super::runner::verif_root().join("evidence").join(format!("{}.{}.json", prop, tag));
+            if let Ok(t) = std::fs::read_to_string(&side) {
+                if let Ok(v) = serde_json::from_str::<Value>(&t) {
+                    let c = &v["coverage"];
+                    doc["coverage"][key] = json!({
+                        "evaluations": c["evaluations"], "distinct_nontrivial": c["distinct_nontrivial"],
+                        "violations": v["violations"], "wall_s": v["wall_s"], "faults_fired": c["faults_fired"],
+                        "probes": c["probes"], "known_findings_hit": c["known_findings_hit"], "rule": c["rule"],
+                        "samples": c["samples"].as_array().map(|a| a.iter().take(1).cloned().collect::<Vec<_>>()),
+                        "profile": c["profile"],
+                    });
+                    if let (Some(a), Some(b)) = (doc["violations"].as_u64(), v["violations"].as_u64()) {
+                        doc["violations"] = json!(a + b);
+                    }
+                    if tag == "py" {
+                        doc["coverage"]["components"]["real"] = json!(["lightmotif", "lightmotif-io (all four readers and their nom parsers)", "std::io::BufReader / read_until / read_line", "lightmotif-py (Loader, PyFileRead, motif conversion) inside an embedded CPython 3.11"]);
+                    }
                 }
+                let _ = std::fs::remove_file(&side);
             }
-            let _ = std::fs::remove_file(&ship);
         }
     }
     let path = super::runner::verif_root().join("evidence").join(format!("{}.json", name));
